@@ -41,6 +41,7 @@ type glueWorld struct {
 	cMax   int64 // largest MAX_DATA given to us
 	cAdv   int64 // last connection limit we advertised
 	connWU bool  // onHasConnectionData was signalled
+	nHeld, nReset, nResetAfterHold int
 	curOp  string // class of the op being executed (part of monitor keys)
 }
 
@@ -124,6 +125,7 @@ type glueSend struct {
 	cancelled bool
 	completed bool
 	ctrl      bool
+	held      bool // a RESET_STREAM_AT is being held back until the reliable data was sent
 }
 
 type glueRecv struct {
@@ -259,7 +261,15 @@ func (g *glueWorld) drainControl() {
 	for i, x := range g.send {
 		if x.ctrl {
 			x.ctrl = false
-			f, ok, _ := x.str.getControlFrame(now)
+			f, ok, more := x.str.getControlFrame(now)
+			if !ok && more {
+				x.ctrl = true // like the framer: the stream stays registered (frame held back)
+				if !x.held {
+					x.held = true
+					g.nHeld++
+				}
+				g.log("s%d.getControlFrame()=>held back", i)
+			}
 			if ok {
 				if rs, ok := f.Frame.(*wire.ResetStreamFrame); ok {
 					g.log("s%d.getControlFrame()=>RESET_STREAM(final=%d,reliable=%d)", i, rs.FinalSize, rs.ReliableSize)
@@ -269,6 +279,11 @@ func (g *glueWorld) drainControl() {
 						x.resetAt = rs.ReliableSize > 0
 					}
 					x.outReset = append(x.outReset, rs)
+					g.nReset++
+					if x.held {
+						x.held = false
+						g.nResetAfterHold++
+					}
 					g.checkSend(x, i)
 				}
 			}
@@ -599,6 +614,9 @@ func runFlowGlueCase(w *bufio.Writer, rng *u.Rng, caseNo int, dist map[string]in
 		}
 	}
 	dist["ops"] += len(g.human)
+	dist["reset-frames"] += g.nReset
+	dist["reset-held-back"] += g.nHeld
+	dist["reset-sent-after-hold"] += g.nResetAfterHold
 	if caseNo < 2 {
 		fmt.Fprintf(w, "SAMPLE\t%s\n", strings.Join(g.human, " ; "))
 	}
